@@ -99,6 +99,9 @@ def configs(tier):
         add(1, 2, 0.9, True, 0.1, 6, 1, a=[1048576.0], b=[1048577.0], towards=[[1048576.3], [1048576.34]])
         for margin in (0.5, 0.9, 1.0):
             add(2, 2, margin, True, 0.1, 2, 1)
+        # margin 0 (every interval reaches 0 x the largest benefit): a legal, falsy value
+        add(1, 2, 0.0, True, 0.1, 2, 2)
+        add(2, 2, 0.0, True, 0.1, 2, 1)
         for safety in (0.0, 0.1, 0.5):
             add(1, 2, 0.9, True, safety, 3, 2)
             add(1, 3, 0.9, True, safety, 2, 1)
